@@ -176,6 +176,53 @@ def run(chk):
                               "stream %r\n\nin one piece: exit %s %r\nin two chunks (cut at byte %d): exit %s %r\nwithout the junk line: exit %s %r\nstderr %s" % (stream, whole[0], whole[1], cuts[0], parts[0], parts[1], nojunk[0], nojunk[1], parts[2][-600:]), "chunking:long-line")
             else:
                 chk.cov["traces_validated_against_impl"] += 1
+    # (d3) a burst whose size is an exact multiple of the daemon's read size (4096 bytes), all complete lines: every line must be
+    #      answered without waiting for further input, and none may be lost when end of input follows
+    for k in (1, 2, 3):
+        if len(chk.violations) >= 4: break
+        scn = Scn(True, False, [('a.svc', 'login')], [], 0, [], "burst of exactly %d bytes of complete lines" % (4096 * k))
+        body = b""
+        i = 0
+        while True:
+            i += 1
+            one = b"".join(b"%d %s\n" % (i, l) for l in (b"C 10.0.%d.%d %d 10.0.0.1 6667" % (i // 250, i % 250, 1000 + i), b"N host%d.example.org" % i, b"u ident", b"n Nick%d" % i, b"U user :Real Name", b"H", b"D"))
+            if len(body) + len(one) > 4096 * k - 20: break
+            body += one
+        stream = body + b"99 Z :" + b"x" * (4096 * k - len(body) - 7) + b"\n"
+        assert len(stream) == 4096 * k
+        def pieces(n): return min(n, 1500)
+        pieces.pause = 0.05
+        ref = raw_run(impl, scn, stream, pieces)
+        atonce = raw_run(impl, scn, stream)
+        chk.cov["evaluations"] += 2; chk.hist("chunking:burst of an exact multiple of 4096 bytes")
+        if ref[0] != 0 or atonce[0] != 0 or filt(atonce[1]) != filt(ref[1]) or not filt(ref[1]):
+            chk.violation("%d bytes of complete lines followed by end of input: %d answer lines when they arrive in one burst, %d when they arrive in 1500-byte pieces (exit %s / %s)" % (len(stream), len(filt(atonce[1])), len(filt(ref[1])), atonce[0], ref[0]),
+                          "stream %r\n\nin one burst: %r\n\nin pieces: %r\nstderr %s" % (stream, atonce[1], ref[1], atonce[2][-600:]), "chunking:burst-eof")
+            continue
+        # the same burst with the input left open: the answers must come without further input
+        d = Path(tempfile.mkdtemp(dir=str(BUILD / "tmp"), prefix="b"))
+        try:
+            conf = d / "iauthd.conf"
+            conf.write_text(conf_text(str(impl / "mods"), True, False, scn.svcs, [], 0), encoding="latin1")
+            pr = subprocess.Popen([str(impl / "iauthd-c"), "-n", "-f", str(conf)], stdin=subprocess.PIPE, stdout=subprocess.PIPE, stderr=subprocess.PIPE, env=SAN_ENV, cwd=str(d))
+            want = len([l for l in ref[1] if l.startswith("D ")])
+            pr.stdin.write(stream); pr.stdin.flush()
+            out = b""; t0 = time.time()
+            while out.count(b"\nD ") < want and time.time() - t0 < 5:
+                r, _, _ = select.select([pr.stdout], [], [], 0.25)
+                if r:
+                    chunk = os.read(pr.stdout.fileno(), 65536)
+                    if not chunk: break
+                    out += chunk
+            seen = out.count(b"\nD ")
+            pr.stdin.close(); pr.stdout.read(); pr.stderr.read(); pr.wait(timeout=30)
+        finally:
+            shutil.rmtree(d, ignore_errors=True)
+        if seen < want:
+            chk.violation("a burst of %d bytes of complete lines is not processed until more input (or end of input) arrives: %d of %d verdicts after 5 s with the input left open" % (len(stream), seen, want),
+                          "stream %r" % (stream,), "chunking:burst-hang")
+        else:
+            chk.cov["traces_validated_against_impl"] += 1
     # (e) info requests and client traffic after a reload whose core.modules entry is written differently (other order, fewer names):
     #     nothing is loaded or unloaded by a reload, so the answers must be those of the same session without the reload, and no
     #     module may be left holding a name that the configuration tree has freed (D25)
@@ -198,4 +245,4 @@ def run(chk):
                 chk.cov["traces_validated_against_impl"] += 1
     chk.cov["distinct_nontrivial"] = len(distinct)
     chk.cov["samples"] = [repr(jobs[0][1][:300]), repr(jobs[len(base) + 5][1]) if len(jobs) > len(base) + 5 else "", repr(jobs[-1][1][:120])]
-    chk.cov["rule"] = "byte streams: generated sessions with junk lines (unknown ids, unknown commands, malformed replies, missing parameters, >16 parameters, 5000-byte lines, NUL and high bytes) and mutations mixed in, CRLF and LF line ends, a final partial line; every prefix of the first streams; random bytes; the same stream through a pipe in 1-byte / random / page-sized chunks. Required: exit status 0, sanitizers silent, stdout equal to the model's output for the complete lines of the stream; distinct = distinct non-empty outputs"
+    chk.cov["rule"] = "byte streams: generated sessions with junk lines (unknown ids, unknown commands, malformed replies, missing parameters, >16 parameters, 5000-byte lines, NUL and high bytes) and mutations mixed in, CRLF and LF line ends, a final partial line; every prefix of the first streams; random bytes; the same stream through a pipe in 1-byte / random / page-sized chunks; bursts of exactly 4096, 8192 and 12288 bytes of complete lines, followed by end of input and with the input left open (answers must not wait for more input). Required: exit status 0, sanitizers silent, stdout equal to the model's output for the complete lines of the stream; distinct = distinct non-empty outputs"
